@@ -144,6 +144,10 @@ func init() {
 					p.CancelAt = uint64(1 + r.IntN(3*c+3))
 				case "setupfault":
 					p.SetupFault = 1 + r.IntN(engine.NumBehaviours-1)
+					if r.IntN(4) == 0 {
+						// a stopping failure raised through a handle the setup created for a component of its own
+						p.SetupFault = pick(r, engine.BOtherFailNow, engine.BOtherRequire)
+					}
 					p.SetupFaultPos = r.IntN(ns + 1)
 				case "cancel-setup":
 					// the run is cancelled while setup is executing (after some of its cleanups were registered);
@@ -230,6 +234,11 @@ func c06Once(c *core.Case, o *core.Outcome, p c06Params, reg *scenarios.Scenario
 			cancel()
 		}
 		if p.SetupFault != engine.BPass {
+			if p.SetupFault == engine.BOtherFailNow || p.SetupFault == engine.BOtherRequire {
+				aux, _ := f1testing.NewTWithOptions("component")
+				engine.OtherHandle.Store(aux)
+				defer engine.OtherHandle.Store(nil)
+			}
 			engine.Behave(t, p.SetupFault)
 		}
 		for i := p.SetupFaultPos; i < len(p.SetupCleanups); i++ {
